@@ -42,6 +42,18 @@ CHECKS = {
              'detecting step; the hook trace of each run must be a behaviour of PhaseExec.',
         note='Bounded base case (2 / 3 effectful instructions per phase); D11 is a recorded known finding.',
         design='5/C03'),
+    'C04': dict(
+        engine='spec/Sandbox.tla (refinement of spec/PhaseExec.tla), spec/SandboxExport.tla, spec/PhaseExecTrace.tla',
+        technique='TLC model checking of the executor extended with sandbox/process state + replay of every case with '
+                  'snapshot-taking stubs and real cd/env/file instructions + unprivileged read-only cases + TLC trace '
+                  'validation',
+        text='TLC enumerates every way of ending x cleanup fault x 3 modes x {cd, env, file in tmp/} and checks layout, '
+             'result/ contents, tmp/ untouched, removal/keeping and process-state restoration as invariants; every case '
+             'is executed and the snapshots taken by stubs inside the real sandbox, the fate of the sandbox directory and '
+             'cwd/os.environ afterwards are compared; read-only sandbox contents are exercised as uid 65534.',
+        note='Contents of internal/ are not compared; permission faults need workers that drop privileges (root ignores '
+             'permission bits); D8 was found by this check and repaired (fix: 09e13fb).',
+        design='5/C04'),
 }
 
 NOT_YET = 'check not built yet (planned in DESIGN.md section 5); no claim is made'
